@@ -253,12 +253,11 @@ impl Exec {
         }
     }
 
-    /// a socket time-out is in use. Known finding D2io: a stall >= d between arming the I/O timer
-    /// and storing the coroutine loses the time-out; general sweeps stay below d/3 in that window,
-    /// the dedicated probe exercises it on purpose
+    /// a socket time-out is in use. While D2io (a stall >= d between arming the I/O timer and storing the coroutine
+    /// loses the time-out) was a known finding the general sweeps stayed below d/3 inside that window
+    /// (`hook::ARMED_CLAMP_US`); since its repair the window is stalled like any other
     pub fn io_timeout_used(&mut self, d: Duration) {
         self.timeout_used(d);
-        hook::ARMED_CLAMP_US.store((self.min_timeout_us / 3).max(1), SeqCst);
     }
 
     fn new_actor(&mut self, name: &str, is_co: bool) -> (Actor, DoneGuard) {
